@@ -3,9 +3,9 @@ import sys, os, subprocess, time, shutil
 sys.path.insert(0,'/verif/lib')
 import mirsmt, miragg, mirblocks, mirflow, mirpaths, mirload, mirquery
 rel, old, new, checks = sys.argv[1:5]
-base='/verif/.cache/work/slot0/src'
+base='/repo'
 mut='/tmp/mutsrc'
-subprocess.check_call(['rsync','-a','--delete','--exclude','/target',base+'/',mut+'/'])
+subprocess.check_call(['rsync','-rlpc','--delete','--exclude','/target','--exclude','.git',base+'/',mut+'/'])
 # pristine copy of the file from /repo
 shutil.copy(os.path.join('/repo',rel), os.path.join(mut,rel))
 t=open(os.path.join(mut,rel)).read()
